@@ -19,6 +19,8 @@ Sign(k) == /\ Len(pks) < MaxPk /\ k \in Kinds
            /\ LET i == Len(pks) + 1  ctx == IF DevAccum THEN Append(acc, i) ELSE <<i>> IN
                 /\ pks' = Append(pks, [kind |-> k, over |-> ctx])
                 /\ acc' = IF DevAccum THEN ctx ELSE acc
+\* the application re-reads the packets (and parse results) it kept: they are what they were
+Recheck == UNCHANGED vars
 Next == \E k \in Kinds : Sign(k)
 Spec == Init /\ [][Next]_vars
 OwnPortionOnly == \A i \in 1..Len(pks) : pks[i].over = <<i>>
